@@ -15,23 +15,30 @@ EXTENDS Naturals, Sequences, FiniteSets, TLC
             exited : Nat (threads gone before attach), rsp0 : Nat (sandbox threads), prinNotRef : BOOLEAN,
             dsoFail : BOOLEAN, handlesFail : BOOLEAN] *)
 FailPoints == {"StopProcess", "FillMissingAuxvInfo", "ThreadName", "SuspendThreads", "CpuInfoFileOpen"}
+(* files the writer copies (and partly parses) whose reading can fail: plan.unreadable is the set that cannot be opened *)
+Files == {"cpuinfo", "release", "cmdline", "environ", "auxv", "limits"}
+CopyError == [cpuinfo |-> "WriteCpuInfoFailed/IOError", release |-> "WriteOsReleaseInfoFailed/IOError", cmdline |-> "WriteCommandLineFailed/IOError",
+              environ |-> "WriteEnvironmentFailed/IOError", auxv |-> "WriteAuxvFailed/IOError", limits |-> "WriteLimitsFailed/IOError"]
 Rep(n, x) == [k \in 1..n |-> x]
 StepNames == <<"stop_process", "fill_auxv", "enumerate_threads", "suspend_threads", "no_threads_left", "principal",
-               "sysinfo", "dso_debug", "handles">>
+               "sysinfo", "cpuinfo", "release", "cmdline", "environ", "auxv", "dso_debug", "limits", "handles">>     \* generate_dump's order
 (* what each step appends to the soft-error tree, as paths, in order *)
 Contribution(step, p) ==
   CASE step = "stop_process"      -> IF "StopProcess" \in p.fp THEN <<"InitErrors/StopProcessFailed/Stop">> ELSE <<>>
-    [] step = "fill_auxv"         -> IF "FillMissingAuxvInfo" \in p.fp /\ ~p.auxvComplete THEN <<"InitErrors/FillMissingAuxvInfoErrors/InvalidFormat">> ELSE <<>>
+    [] step = "fill_auxv"         -> IF p.auxvComplete THEN <<>>                                      \* nothing is missing: the file is not opened
+                                     ELSE (IF "auxv" \in p.unreadable THEN <<"InitErrors/FillMissingAuxvInfoErrors/IOError">> ELSE <<>>)       \* the read of the first pair fails
+                                          \o (IF "FillMissingAuxvInfo" \in p.fp THEN <<"InitErrors/FillMissingAuxvInfoErrors/InvalidFormat">> ELSE <<>>)
     [] step = "enumerate_threads" -> Rep(IF "ThreadName" \in p.fp THEN p.threads ELSE p.nameFail, "InitErrors/EnumerateThreadsErrors/ReadThreadNameFailed")
     [] step = "suspend_threads"   -> Rep(p.exited, "SuspendThreadsErrors/PtraceAttachError") \o Rep(p.rsp0, "SuspendThreadsErrors/DetachSkippedThread")
                                       \o (IF "SuspendThreads" \in p.fp THEN <<"SuspendThreadsErrors/PtraceAttachError">> ELSE <<>>)
     [] step = "no_threads_left"   -> IF p.threads = p.exited + p.rsp0 THEN <<"SuspendNoThreadsLeft">> ELSE <<>>
     [] step = "principal"         -> IF p.prinNotRef THEN <<"PrincipalMappingNotReferenced">> ELSE <<>>
-    [] step = "sysinfo"           -> IF "CpuInfoFileOpen" \in p.fp THEN <<"WriteSystemInfoErrors/WriteCpuInformationFailed/IOError">> ELSE <<>>
+    [] step = "sysinfo"           -> IF "CpuInfoFileOpen" \in p.fp \/ "cpuinfo" \in p.unreadable THEN <<"WriteSystemInfoErrors/WriteCpuInformationFailed/IOError">> ELSE <<>>
+    [] step \in Files             -> IF step \in p.unreadable THEN <<CopyError[step]>> ELSE <<>>
     [] step = "dso_debug"         -> IF p.dsoFail THEN <<"WriteDSODebugStreamFailed">> ELSE <<>>
     [] step = "handles"           -> IF p.handlesFail THEN <<"WriteHandleDataStreamFailed">> ELSE <<>>
     [] OTHER -> <<>>
-ZeroEntry(step, p) == (step = "dso_debug" /\ p.dsoFail) \/ (step = "handles" /\ p.handlesFail)
+ZeroEntry(step, p) == (step = "dso_debug" /\ p.dsoFail) \/ (step = "handles" /\ p.handlesFail) \/ (step \in Files /\ step \in p.unreadable)
 RECURSIVE ErrSeqFrom(_, _)
 ErrSeqFrom(k, p) == IF k > Len(StepNames) THEN <<>> ELSE Contribution(StepNames[k], p) \o ErrSeqFrom(k + 1, p)
 ErrSeq(p) == ErrSeqFrom(1, p)
@@ -42,8 +49,9 @@ CONSTANTS MaxThreads
 VARIABLES plan, step, errs, zero, result
 vars == <<plan, step, errs, zero, result>>
 Init == /\ plan \in [fp : SUBSET FailPoints, nameFail : 0..1, threads : 1..MaxThreads, exited : 0..1, rsp0 : 0..1, prinNotRef : BOOLEAN,
-                     dsoFail : BOOLEAN, handlesFail : BOOLEAN, auxvComplete : BOOLEAN]
+                     dsoFail : BOOLEAN, handlesFail : BOOLEAN, auxvComplete : BOOLEAN, unreadable : SUBSET Files]
         /\ plan.exited + plan.rsp0 <= plan.threads /\ plan.nameFail <= plan.threads
+        /\ ("auxv" \in plan.unreadable /\ ~plan.auxvComplete => plan.dsoFail)       \* without program-header values there is no linker data
         /\ step = 1 /\ errs = <<>> /\ zero = {} /\ result = "running"
 Advance == /\ result = "running" /\ step <= Len(StepNames)
            /\ errs' = errs \o Contribution(StepNames[step], plan)      \* a failing best-effort step pushes and goes on
